@@ -181,6 +181,10 @@ def run_case(case):
     if dut != "wb2axil" and master.hold_violations():
         c_, txt = master.hold_violations()[0]
         return bad("master-side-hold", "%s: B/R channel towards the master, cycle %d: %s" % (ctx, c_, txt), key="bridge-hold:" + dut, cls=cls, cycles=cyc)
+    if dut != "wb2axil" and master.extra_responses:
+        ch, c_, tok = master.extra_responses[0]
+        return bad("response-once", "%s: a %s response in cycle %d that no request is waiting for" % (ctx, ch.upper(), c_),
+                   key="bridge-once:" + dut, cls=cls, cycles=cyc)
     if not master.finished():
         if dut == "wb2axil":
             pend = master.i
